@@ -96,6 +96,14 @@ def explore(chk, codes, obj_codes, tag):
             a = DiameterAnswer(command_code=257, application_id=0)
             a.append(OriginHostAVP("host.example"))
             a.append(ResultCodeAVP(n.to_bytes(4, "big")))
+            # the family of an answer is a function of its Result-Code only: header flags (E, P, T) vary with the code
+            fl = (n * 7 + n // 1000) % 4
+            if fl == 1:
+                a.header.set_error_bit(True)
+            elif fl == 2:
+                a.header.flags = bytes([a.header.flags[0] | 0x40])
+            elif fl == 3:
+                a.header.flags = bytes([a.header.flags[0] | 0x30])
             cur["n"], cur["ans"] = n, a
         return cur["ans"]
 
